@@ -39,12 +39,15 @@ EXTENDS Layout
 b(n, name) == <<"b", n, name>>
 B(name) == <<"B", 1, name>>
 W(n, name) == <<"W", n, name>>
+\* padding (pad_bits_before/after, pad_bytes_before): whole bytes are skipped through read_bytes, anything else through read_bits
+P(n) == IF n % 8 = 0 THEN <<"W", n \div 8, "-">> ELSE <<"b", n, "-">>
 E == <<"E", 0, "-">>
 S == <<"S", 0, "-">>
 Rep(k, op) == [i \in 1..k |-> op]
 
 \* ---- the machine -------------------------------------------------------------------------------
-St0 == [pos |-> 0, left |-> 0, last |-> 0, out |-> <<>>, io |-> <<>>]
+\* tr: the requests as deku's own logging reports them (read_bits n / read_bytes n / seek back k)
+St0 == [pos |-> 0, left |-> 0, last |-> 0, out |-> <<>>, io |-> <<>>, tr |-> <<>>]
 Put(out, name, start, n) == IF name = "-" THEN out ELSE Append(out, <<name, start, n>>)
 ReadBits(st, n, name) ==
   LET start == st.pos * 8 - st.left IN
@@ -53,18 +56,21 @@ ReadBits(st, n, name) ==
   ELSE LET need == n - st.left  k == (need + 7) \div 8 IN
        [st EXCEPT !.pos = st.pos + k, !.left = 8 * k - need, !.last = st.last + n,
                   !.out = Put(st.out, name, start, n), !.io = Append(st.io, <<"r", k>>)]
+ReadBitsT(st, n, name) == [ReadBits(st, n, name) EXCEPT !.tr = Append(st.tr, <<"b", n>>)]
 ReadBytes(st, n, name) ==
   IF st.left = 0
-  THEN [st EXCEPT !.pos = st.pos + n, !.last = st.last + 8 * n, !.out = Put(st.out, name, st.pos * 8, 8 * n), !.io = Append(st.io, <<"r", n>>)]
-  ELSE ReadBits(st, 8 * n, name)
+  THEN [st EXCEPT !.pos = st.pos + n, !.last = st.last + 8 * n, !.out = Put(st.out, name, st.pos * 8, 8 * n), !.io = Append(st.io, <<"r", n>>),
+                  !.tr = Append(st.tr, <<"B", n>>)]
+  ELSE [ReadBits(st, 8 * n, name) EXCEPT !.tr = Append(st.tr, <<"B", n>>)]
 SeekLast(st) ==
   LET k == st.last \div 8 + (IF st.last % 8 > 0 THEN 1 ELSE 0)
       p == st.pos - k IN
   [st EXCEPT !.pos = p, !.left = 0,
              !.out = SelectSeq(st.out, LAMBDA f : f[2] < p * 8),          \* what was read from there on is read again
-             !.io = IF k > 0 THEN Append(st.io, <<"s", k>>) ELSE st.io]
+             !.io = IF k > 0 THEN Append(st.io, <<"s", k>>) ELSE st.io,
+             !.tr = Append(st.tr, <<"s", k>>)]
 Apply(st, op) ==
-  CASE op[1] = "b" -> ReadBits(st, op[2], op[3])
+  CASE op[1] = "b" -> ReadBitsT(st, op[2], op[3])
     [] op[1] = "B" -> ReadBytes(st, 1, op[3])
     [] op[1] = "W" -> ReadBytes(st, op[2], op[3])
     [] op[1] = "E" -> [st EXCEPT !.last = 0]
@@ -84,8 +90,8 @@ DR(pat) == IF pat THEN <<E, b(5, "-"), S, b(5, "dr")>> ELSE <<E, b(5, "dr")>>   
 UM == <<b(4, "iis"), E, b(2, "ids")>>
 Chars == Rep(8, b(6, "ch"))
 
-Opaque(dev, pat) == IF pat THEN <<S>> \o Rep(6, B("raw")) \o (IF dev = "D2" THEN <<>> ELSE <<b(8, "-")>>)
-                    ELSE Rep(6, B("raw")) \o (IF dev = "D2" THEN <<>> ELSE <<b(3, "-")>>)
+Opaque(dev, pat) == IF pat THEN <<S>> \o Rep(6, B("raw")) \o (IF dev = "D2" THEN <<>> ELSE <<P(8)>>)
+                    ELSE Rep(6, B("raw")) \o (IF dev = "D2" THEN <<>> ELSE <<P(3)>>)
 AltitudeP == <<S, b(5, "tc"), E, b(2, "ss"), b(1, "saf"), b(12, "altcode"), b(1, "t"), E, b(1, "f"), b(17, "lat"), b(17, "lon")>>
 SurfaceP(dev) == (IF dev = "D4" THEN <<S>> ELSE <<>>)
                  \o <<b(7, "mov"), E, b(1, "gts"), b(7, "trk"), b(1, "t"), E, b(1, "f"), b(17, "lat"), b(17, "lon")>>
@@ -95,20 +101,20 @@ VelocityP(st) ==
       ELSE IF st \in {3, 4} THEN <<b(1, "hst"), b(10, "hdg"), b(1, "ast"), b(10, "asraw")>>
       ELSE <<b(22, "vraw22")>>)
   \o <<E, b(1, "vrsrc"), E, b(1, "vrsign"), b(9, "vr"), b(2, "-"), E, b(1, "difsign"), b(7, "difraw")>>
-StatusP == <<E, b(3, "st"), E, b(3, "es"), b(13, "idcode"), b(32, "-")>>
-TssP == <<b(2, "sub29"), b(1, "-"), b(1, "alttype"), b(11, "altraw"), b(9, "qnhraw"), b(1, "hdgst"), b(9, "hdgraw"), b(4, "nacp"),
+StatusP == <<E, b(3, "st"), E, b(3, "es"), b(13, "idcode"), P(32)>>
+TssP == <<b(2, "sub29"), P(1), b(1, "alttype"), b(11, "altraw"), b(9, "qnhraw"), b(1, "hdgst"), b(9, "hdgraw"), b(4, "nacp"),
           b(1, "nicbaro"), b(2, "sil"), b(1, "modest"), b(1, "ap29"), b(1, "vnav"), b(1, "althold"), b(1, "adsr"), b(1, "appr"),
-          b(1, "tcas"), b(1, "lnav"), b(2, "-")>>
+          b(1, "tcas"), b(1, "lnav"), P(2)>>
 OpModeP == <<b(2, "-"), b(1, "ra"), b(1, "ident"), b(1, "atc"), b(1, "omsaf"), b(2, "sda")>>
 OpStatusP(st) ==
   <<E, b(3, "st")>>
   \o (IF st = 0
-      THEN <<b(2, "-"), b(1, "acas"), b(1, "cdti"), b(2, "-"), b(1, "arv"), b(1, "ts"), b(2, "cctc"), b(6, "-")>> \o OpModeP
-           \o <<b(8, "-"), E, b(3, "ver"), b(1, "nica"), b(4, "nacp"), b(2, "gva"), b(2, "sil"), b(1, "nicbaro"), b(1, "hrd"), b(1, "silsup"), b(1, "-")>>
+      THEN <<b(2, "-"), b(1, "acas"), b(1, "cdti"), b(2, "-"), b(1, "arv"), b(1, "ts"), b(2, "cctc"), P(6)>> \o OpModeP
+           \o <<P(8), E, b(3, "ver"), b(1, "nica"), b(4, "nacp"), b(2, "gva"), b(2, "sil"), b(1, "nicbaro"), b(1, "hrd"), b(1, "silsup"), P(1)>>
       ELSE IF st = 1
-      THEN <<b(2, "-"), b(1, "poa"), b(1, "es1090"), b(2, "-"), b(1, "b2low"), b(1, "uatin"), b(3, "nacv"), b(1, "nicc"), b(4, "lw")>> \o OpModeP
-           \o <<B("gps"), E, b(3, "ver"), b(1, "nica"), b(4, "nacp"), b(2, "-"), b(2, "sil"), b(1, "trkhdg"), b(1, "hrd"), b(1, "silsup"), b(1, "-")>>
-      ELSE <<S, b(5, "rsv5")>> \o Rep(5, B("raw")) \o <<b(11, "-")>>)
+      THEN <<b(2, "-"), b(1, "poa"), b(1, "es1090"), P(2), b(1, "b2low"), b(1, "uatin"), b(3, "nacv"), b(1, "nicc"), b(4, "lw")>> \o OpModeP
+           \o <<B("gps"), E, b(3, "ver"), b(1, "nica"), b(4, "nacp"), P(2), b(2, "sil"), b(1, "trkhdg"), b(1, "hrd"), b(1, "silsup"), P(1)>>
+      ELSE <<S, b(5, "rsv5")>> \o Rep(5, B("raw")) \o <<P(11)>>)
 \* ME: the identifier is the type code; variants selected by one value keep it consumed, variants selected by a pattern
 \* re-read it (S) into their first field
 MEp(tc, st, dev) ==
@@ -125,7 +131,7 @@ MEp(tc, st, dev) ==
 BDSp(first) ==
   <<E>> \o
   (CASE first = 0 -> <<B("bds")>> \o Rep(6, B("raw"))
-     [] first = 16 -> <<B("bds"), b(1, "cont"), b(5, "-"), b(1, "ovc"), b(1, "dlacas"), b(7, "subnet"), b(1, "enh"), b(1, "spec"), b(3, "uelm"),
+     [] first = 16 -> <<B("bds"), b(1, "cont"), P(5), b(1, "ovc"), b(1, "dlacas"), b(7, "subnet"), b(1, "enh"), b(1, "spec"), b(3, "uelm"),
                         b(4, "delm"), b(1, "idcap"), b(1, "sqcap"), b(1, "sic"), b(1, "gicb"), b(4, "acasbits"), W(2, "dte")>>
      [] first = 32 -> <<B("bds")>> \o Chars
      [] OTHER -> <<B("-"), S, B("bdsid")>> \o Rep(6, B("raw")))
